@@ -12,24 +12,24 @@ ASSUMPTIONS = [
     "simulated behaviours replayed on real nodes step by step and with whole exchanges run by the real poller code; after every pair has "
     "exchanged no node computes a difference against any other and all reads are identical (C05_NothingLeft, C01_Converges); every diff the real "
     "keyspace actors answered is validated against DiffSpec by Trace_KeyspaceActor.tla",
-    "at scale: single real poller rounds for 1 .. 50 001 documents (with tombstones, the receiver holding older versions of some); the expectation is the "
+    "at scale: single real poller rounds for 1 .. 55 557 documents (with tombstones, the receiver holding older versions of some); the expectation is the "
     "statement's - after the exchange the receiver holds what the sender holds - compared on the two storages",
 ]
 
 
 def large_exchanges(ctx):
     """One real poller round between a node holding N documents and tombstones and a node holding nothing (or older versions
-    of some), N around the poller's batching limits (1, 2, 3, ~1 000, ~5 000, 50 001): afterwards the two storages list the
+    of some), N around the poller's batching limits (1, 2, 3, ~1 000, ~5 000, 55 557): afterwards the two storages list the
     same ids, stamps and kinds and hold the same bytes - the statement's 'one exchange repairs' at sizes the model's two keys
     cannot reach."""
     binary = vlib.build_harness(ctx, "h-ec")
     out = ctx.path("large_exchange.json")
-    sizes = "1,2,3,999,1000,1001,4999,50001" if ctx.tier == "quick" else "1,2,3,9,10,11,999,1000,1001,4999,9999,10000,10001,49999,50000,50001,100001"
+    sizes = "1,2,3,999,1000,1001,4999,55556,55557" if ctx.tier == "quick" else "1,2,3,9,10,11,999,1000,1001,4999,9999,10000,10001,49999,50000,50001,55555,55556,55557,111112"
     vlib.run_harness(ctx, [binary, "large-exchange", "--out", out, "--sizes", sizes], timeout=3000)
     rep = vlib.load_json(out)
     if rep["evaluations"] == 0 or rep["entries"] < 50000:
         raise vlib.ToolError("vacuous large-exchange run")
-    ctx.log("large exchanges: %d exchanges of up to 50 001 documents through the real poller: %d leave the two nodes apart" % (
+    ctx.log("large exchanges: %d exchanges of up to 55 557 documents through the real poller: %d leave the two nodes apart" % (
         rep["evaluations"], rep["violation_count"]))
     for v in rep["violations"][:3]:
         ctx.violations.append(dict(engine="h-ec large-exchange", **v))
